@@ -1,5 +1,6 @@
 # props/C15.py — usage text of nitro::options::parser (parser::usage, group::usage, base::format, format_padded)
 import itertools
+import os
 from lib.framework import Check, run_lines, load_known
 
 
@@ -350,6 +351,29 @@ def add_history(rng, c):
     return c
 
 
+def gen_fmt(rng):
+    """formatting state left on the target stream by the caller: fill character, adjustment, number base and flags, precision,
+    exception mask of the default kind.  A pending field width is generated only on request (VERIF_C15_PENDING_WIDTH=1):
+    on the unchanged tree it DOES change the text (the first insertion `s << head.str()` of parser::usage honours it) —
+    reported to the lead as a finding, see corpus/C15.txt"""
+    items = [rng.choice(["f30", "f2a", "f20", "f30", "f2a"])]
+    if rng.random() < 0.7:
+        items.append(rng.choice("LRI"))
+    if rng.random() < 0.4:
+        items.append(rng.choice("hod"))
+    for flag in "sub":
+        if rng.random() < 0.3:
+            items.append(flag)
+    if rng.random() < 0.3:
+        items.append("p%d" % rng.choice([0, 1, 3, 12]))
+    if rng.random() < 0.3:
+        items.append("e")
+    if os.environ.get("VERIF_C15_PENDING_WIDTH") == "1" and rng.random() < 0.5:
+        items.append("w%d" % rng.choice([1, 5, 30, 100]))
+    rng.shuffle(items)
+    return ".".join(items)
+
+
 def add_rerequests(rng, c):
     """RE-REQUEST already declared options (same name, kind and group) at later points of the declaration sequence:
     immediately after the first request, after other declarations in the same or another group, and late (after the
@@ -454,6 +478,14 @@ def small_usage_cases():
         opts = [dict(kind=k, group=0, name=n, short=None, descr="d", env="", metavar="ARG", flag=(k != "t"), rank=None,
                      default=(False if k == "t" else None), late=(late and n == "cc")) for k, n in zip("otm", ["aa", "bb", "cc"])]
         yield dict(app="app", about="", defname="arguments", pos=True, posamt=posamt, hist=hist, posname="args", prior="p", groups=[], opts=rerank(opts))
+    # formatting state of the target stream: every dimension alone and a few combinations, on a text with padding and wrapping
+    for fmt in ["f30", "f2a", "L", "I", "R", "f30.L", "f2a.I", "f30.R", "h", "o", "s", "u", "b", "h.s.u", "p0", "p12", "e",
+                "f30.L.h.s.u.b.p3.e", "f2a.I.o.s.b.p0.e"]:
+        opts = [dict(kind="t", group=0, name="verbose", short="v", descr="print more", env="V", metavar="ARG", flag=True, rank=0, default=True),
+                dict(kind="o", group=0, name="a-rather-long-option-name-to-wrap-the-synopsis-line", short="o",
+                     descr="some words that are long enough to be wrapped once behind column forty of the text", env="", metavar="ARG",
+                     flag=False, rank=None, default="7")]
+        yield dict(app="app", about="about", defname="arguments", pos=True, posamt=None, hist="", fmt=fmt, posname="args", prior="xy", groups=[], opts=opts)
     # re-requests: directly behind the first request, behind another declaration of the same group, of another group, and late;
     # with and without setters; each kind
     for kind, place, setters in itertools.product("omt", ["direct", "same-group", "other-group", "late"], [False, True]):
@@ -556,7 +588,8 @@ class C15(Check):
                   "model = code is tested (exact text, bounded-exhaustive + random), not proved. Only exercised by the driver, not "
                   "proved: independence of the real code from state left by earlier uses (parse() calls of three kinds before and between "
                   "usage() calls, move construction / move assignment of the parser, a first usage() before late declarations and late groups, usage() twice on the same stream kind: in the model the text "
-                  "is a function of the declaration alone) and stream independence of the real code (fresh stringstream / stringstream with prior content / non-seekable "
+                  "is a function of the declaration alone) and stream independence of the real code, including the stream's formatting state (fill, adjustment, base and flags, precision, "
+                  "exception mask; NOT a pending field width, which today pads the first line - reported) (fresh stringstream / stringstream with prior content / non-seekable "
                   "ostream / std::cout with swapped rdbuf must receive identical text); std::setw + operator<<(char) padding, tellp(), "
                   "std::map name order, std::sort on (signed) char, nitro::format's one-placeholder substitution (modelled as "
                   "concatenation). The address order of the long toggles is forced by the driver (arena operator new during their "
@@ -577,7 +610,11 @@ class C15(Check):
             "about 30% of the usage cases carry state between uses: parse() calls (empty, giving, failing argument vectors) before and "
             "between the usage() calls on the same parser object, the parser move-constructed into a new object / move-assigned into a used "
             "one at the same points (with 2-4 named groups created in non-alphabetical order, and a group created after the move), "
-            "accept_positionals(k), options declared after a first usage() call; about a third of the usage cases RE-REQUEST declared "
+            "accept_positionals(k), options declared after a first usage() call; about a third of the usage cases put a FORMATTING STATE on "
+            "every target stream before usage() (fill ' '/'0'/'*', adjustfield left/right/internal, basefield, showbase, uppercase, "
+            "boolalpha, precision, exceptions(goodbit); one more usage() goes to a stream in its default state) - the model says none of "
+            "it matters, the text is a function of the declarations only; a pending field width is NOT generated by default (it changes "
+            "the text on the unchanged tree: reported finding, witness in corpus/C15.txt, opt in with VERIF_C15_PENDING_WIDTH=1); about a third of the usage cases RE-REQUEST declared "
             "options (same name/kind/group: directly, after other declarations of the same or another group, late) with or without "
             "setters on the returned object (the block must appear once, carrying them), "
             "and usage() twice on a fresh string stream; (iii) declarations outside the "
@@ -610,6 +647,8 @@ class C15(Check):
                 add_history(rng, c)
             if rng.random() < 0.35:
                 add_rerequests(rng, c)
+            if rng.random() < 0.35:
+                c["fmt"] = gen_fmt(rng)
             line = enc_case(c)
             if k2_lines(c):
                 self._k2_cases.append(line)
@@ -678,6 +717,12 @@ class C15(Check):
             yield variant(about="")
         if c["prior"]:
             yield variant(prior="")
+        if c.get("fmt"):
+            yield variant(fmt="")
+            items = c["fmt"].split(".")
+            for i in range(len(items)):
+                if len(items) > 1:
+                    yield variant(fmt=".".join(items[:i] + items[i + 1:]))
         if c.get("hist"):
             yield variant(hist="")
             if len(c["hist"]) > 1:
